@@ -117,6 +117,14 @@ class T(unittest.TestCase):
         self.differ('def f(x):\n    e = 1\n    try:\n        x.go()\n    except KeyError as e:\n        pass\n    return e\n',
                     'def f(x):\n    e = 1\n    try:\n        x.go()\n    except KeyError:\n        pass\n    return e\n')
 
+    def test_handler_name_at_module_level(self):
+        a = 'e = 5\ntry:\n    import x\nexcept ImportError as e:\n    pass\nprint(e)\n'
+        self.differ(a, a.replace(' as e', ''))
+        b = 'try:\n    import x\nexcept ImportError as e:\n    pass\n'
+        self.same(b, b.replace(' as e', ''))
+        c = 'def e():\n    pass\ntry:\n    import x\nexcept ImportError as e:\n    pass\n'
+        self.differ(c, c.replace(' as e', ''))
+
     def test_logging_with_side_effects_is_kept(self):
         base = 'def f(self, x):\n    return x\n'
         for arg in ('self.reset()', 'x.pop()', 'compute(x)', '[g(y) for y in x]', '(y := x)', 'next(x)',
